@@ -71,8 +71,8 @@ Proof. exact (fun N mf succs subj sk bad => store_invariant N mf succs subj sk b
 Print Assumptions C08_store_invariant.
 
 (* GC after any history, as one operation: exactly the blob files of the rebuilt graph stay, every
-   reference that is left names a node of that graph, no tag is lost and no digest reference of a
-   node that stays in the graph is lost - the abstract "keep the nodes of the graph" GC step of
+   reference that is left names a node of that graph and comes from an old reference (same name,
+   same node), no tag is lost and no digest reference of a node that stays in the graph is lost - the abstract "keep the nodes of the graph" GC step of
    Model/OciLocks.v (KRegGC / KSweep with keep = the rebuilt graph) is what gcIndex + sweep do *)
 Theorem C08_gc_effect :
   forall (N : nat) (mf : nat -> bool) (succs : nat -> list nat) (subj : nat -> option nat)
@@ -84,7 +84,9 @@ Theorem C08_gc_effect :
     blobs s' = filter (fun k => mem k (gr s')) (blobs s) /\
     (forall r d, lookup r (r_index (res s')) = Some d -> In (d_node d) (gr s')) /\
     (forall t d, lookup (RTag t) (r_index (res s)) = Some d -> lookup (RTag t) (r_index (res s')) <> None) /\
-    (forall k, lookup (RDig k) (r_index (res s)) <> None -> In k (gr s') -> lookup (RDig k) (r_index (res s')) <> None).
+    (forall k, lookup (RDig k) (r_index (res s)) <> None -> In k (gr s') -> lookup (RDig k) (r_index (res s')) <> None) /\
+    (forall r d, lookup r (r_index (res s')) = Some d ->
+       exists d0, lookup r (r_index (res s)) = Some d0 /\ d_node d0 = d_node d).
 Proof. exact (fun N mf succs subj sk bad => gc_effect_history N mf succs subj sk bad (fun _ => false)). Qed.
 Print Assumptions C08_gc_effect.
 
